@@ -135,6 +135,22 @@ def check(run):
             continue
         vlib.judge_stream(run, name, IMPORTS, "case", cases, res, term, CLAUSES, (0,), rule + "; non-trivial = distinct schedule in which something was "
                           "dropped, an unmute happened or Ctrl+O was repeated while muted", key_fn=lambda c: json.dumps(c["events"]))
+    # the lock-order model against the source: shape of the handler and the writers, regenerated from the working tree
+    okl, gen, llog = vlib.run_translator(run, "lockshape")
+    run.checker_cmds.append("translator/lockshape (go/parser over /repo/lib/opshell/opshell.go) -> GenLock.v ; coqc GenDepC19.v (shape = Model/LockOrder.lock_shape_of_model)")
+    if not okl:
+        run.oblige("translator lockshape ran on /repo's working tree", False, llog[-2000:])
+    else:
+        open(os.path.join(run.rundir, "GenLock.v"), "w").write(gen)
+        open(os.path.join(run.rundir, "GenDepC19.v"), "w").write(
+            "From CRS Require Import Lib.Bytes Model.LockOrder Props.C19.\nFrom Gen Require Import GenLock.\n"
+            "Theorem c19_tree_lock_shape : (handler_sync_locks, writers_take_wl_first) = lock_shape_of_model.\nProof. vm_compute. reflexivity. Qed.\n"
+            "Print Assumptions c19_tree_lock_shape.\n")
+        rc1, o1, e1 = vlib.coqc("GenLock.v", run.rundir, extra_q=[(run.rundir, "Gen")])
+        rc2, o2, e2 = vlib.coqc("GenDepC19.v", run.rundir, extra_q=[(run.rundir, "Gen")]) if rc1 == 0 else (1, "", "")
+        run.oblige("per-run obligation c19_tree_lock_shape: in the working tree the Ctrl+O handler takes no lock synchronously (goxterm calls it with the "
+                   "terminal's lock held) and writePlain / Logf lock Shell.wL first - the shape c19_ctrl_o_no_deadlock is about",
+                   rc1 == 0 and rc2 == 0, (gen + o1 + e1 + o2 + e2)[-2500:])
     # Ctrl+O as a real key press, concurrent with writes
     kc = [{"i": k, "mode": "forced"} for k in range(3 if run.tier == "quick" else 20)]
     for k in range(6 if run.tier == "quick" else 200):
